@@ -1,11 +1,95 @@
+"""C13 -- union dispatch shortcuts equal try-each-alternative (spec/DataModel.tla: MUnion vs RD)."""
+import itertools
+import json
+import sys
+import types
+from typing import Any, Union
+
 from harness import common, engine_deser
+
+HIER_SRC = '''
+from dataclasses import dataclass
+from apischema import discriminator
+
+
+@discriminator("type")
+class Animal:
+    pass
+
+
+@dataclass
+class Cat(Animal):
+    lives: int = 9
+
+
+@dataclass
+class Dog(Animal):
+    bark: bool = True
+
+
+@dataclass
+class Robot:      # not an Animal
+    model: str = "r2"
+
+
+@dataclass
+class Drone:      # not an Animal either
+    rotors: int = 4
+'''
+
+
+def hierarchy_law(rep: common.Report) -> int:
+    """Beyond the universe (class-level, INHERITED discriminators are not in its encoding): a union in which only
+    some alternatives inherit a @discriminator is a plain union; the law of the property itself is checked with the
+    real code on both sides: deserialize(Union[alts], d) = the first deserialize(alt, d) that accepts."""
+    import apischema.cache
+    from apischema import ValidationError, deserialize
+
+    mod = types.ModuleType("verifhier")
+    sys.modules["verifhier"] = mod
+    exec(compile(HIER_SRC, "<verifhier>", "exec"), mod.__dict__)
+    data = [{"lives": 3}, {"type": "Cat", "lives": 3}, {"type": "Dog"}, {"bark": False}, {"model": "x"}, {"rotors": 2}, {},
+            {"type": "Cat"}, {"type": "Robot"}, 5, "a", None, {"lives": "x"}, {"zz": 1}]
+    mixed = [("Robot", "Cat"), ("Cat", "Robot"), ("Cat", "Robot", "Dog"), ("Robot", "Cat", "Dog"), ("Drone", "Dog"),
+             ("Dog", "Drone", "Cat"), ("int", "Cat"), ("Cat", "int"), ("Drone", "Robot")]
+    n = 0
+
+    def outcome(fn):
+        try:
+            return ("ok", repr(fn()))
+        except ValidationError:
+            return ("rejected", None)
+        except Exception as exc:
+            return ("raised", type(exc).__name__)
+
+    for names in mixed:
+        alts = [int if x == "int" else getattr(mod, x) for x in names]
+        tp = Union[tuple(alts)]
+        apischema.cache.reset()      # Union[A, B] == Union[B, A]: one cache entry (known finding F-unionkey of C09)
+        for d in data:
+            n += 1
+            want = ("rejected", None)
+            for alt in alts:
+                r = outcome(lambda: deserialize(alt, d))
+                if r[0] != "rejected":
+                    want = r
+                    break
+            got = outcome(lambda: deserialize(tp, d))
+            if got != want:
+                rep.violation(f"hierarchy law: deserialize(Union[{', '.join(names)}], {json.dumps(d)}) = {got} but the first "
+                              f"alternative accepting it gives {want} (only some alternatives inherit the discriminator)",
+                              {"union": list(names), "data": d, "got": got, "want": want})
+    return n
 
 
 def main() -> int:
     rep = common.Report("C13", "model_checking")
     rep.assumptions = ["reference semantics = spec/DataModel.tla (first accepting alternative; documented coercion table)",
-                       "string -> number parsing and boolean words are Python's own, carried as string attributes"]
+                       "string -> number parsing and boolean words are Python's own, carried as string attributes",
+                       "class-level inherited discriminators are outside the universe's encoding: for unions mixing such a "
+                       "hierarchy with foreign alternatives the try-each law is checked on the real code directly"]
     engine_deser.run("C13", rep, tiers_quick=("u", "d1"), tiers_thorough=("u", "d1", "d2"), only_unions=True, negative={"nofloatfallback": "DispatchEqSequential"})
+    rep.set("hierarchy_law_cases", hierarchy_law(rep))
     return rep.finish()
 
 
